@@ -382,9 +382,32 @@ class LoadEngine(object):
             args = (name, app_map[name])
         else:
             args = (app_map,)
+        # every contextual argument may be given in the call, by an
+        # enclosing context block, or - when it has the declared default (66
+        # is the application id of the controller's initial context) - not
+        # at all
+        declared = dict(app_id=66, n_tries=2, wait=False, app_start_delay=0.1)
+        ctx_args = {}
+        for k in sorted(declared):
+            how = t.weighted([4, 1, 1])
+            if how == 1:
+                ctx_args[k] = kwargs.pop(k)
+            elif how == 2 and kwargs[k] == declared[k] and \
+                    type(kwargs[k]) is type(declared[k]):
+                del kwargs[k]
+                w.probe("load_arg_defaulted")
+        if ctx_args:
+            w.probe("load_args_from_context")
+            w.ops[-1] += " [context: %s]" % ", ".join(sorted(ctx_args))
+
+        def call_load():
+            if not ctx_args:
+                return c.mc.load_application(*args, **kwargs)
+            with c.mc(**ctx_args):
+                return c.mc.load_application(*args, **kwargs)
         status, val = rigcall(
             w, (c.scp.TimeoutError, c.mcmod.SpiNNakerLoadingError),
-            c.mc.load_application, *args, **kwargs)
+            call_load)
         self.n_loads += 1
         if status != "ok":
             c.settle()
